@@ -113,3 +113,51 @@ def open_position(h, p, side=None, name=''):
     h.assume(ops.compare('>', c, 0))
     p.f.update(qty=q, entry_price=e, current_price=c)
     return q, e, c
+
+
+def spot_world(h, symbol='BTC-USDT', fee=None, sums_present=True, with_strategy=False):
+    """SpotExchange + Position with symbolic balances satisfying the cash-account invariant."""
+    r = repo()
+    w = World()
+    fee = fee if fee is not None else h.real('fee', 0, Fraction(1, 100))
+    base = symbol.split('-')[0]
+    ex = Obj(r.find('jesse.models.SpotExchange.SpotExchange'), name='exchange')
+    quote_bal = h.real('quote', 0)
+    base_bal = h.real('base', 0)
+    ex.f.update(name='Sandbox', type='spot', fee_rate=fee, settlement_currency='USDT', assets={'USDT': quote_bal, base: base_bal},
+                temp_reduced_amount={base: Fraction(0), 'USDT': Fraction(0)}, available_assets={base: Fraction(0), 'USDT': Fraction(0)},
+                starting_assets={base: Fraction(0), 'USDT': Fraction(10000)}, buy_orders={}, sell_orders={}, vars={},
+                starting_balance=Fraction(10000), stop_orders_sum={}, limit_orders_sum={}, _started_balance=0)
+    if sums_present:
+        ex.f['stop_orders_sum'][symbol] = h.real('stop_sum', 0)
+        ex.f['limit_orders_sum'][symbol] = h.real('limit_sum', 0)
+    w.exchange = ex
+    w.fee = fee
+    w.symbol = symbol
+    w.base = base
+    strat = Obj(None, {'leverage': 1, 'name': 'S', 'timeframe': '1m', 'trades_count': 0}, name='strategy') if with_strategy else None
+    p = Obj(r.find('jesse.models.Position.Position'), name=f'position[{symbol}]')
+    p.f.update(id=Opaque('id'), entry_price=None, exit_price=None, current_price=None, qty=base_bal, previous_qty=0,
+               opened_at=None, closed_at=None, _mark_price=None, _funding_rate=None, _next_funding_timestamp=None,
+               _liquidation_price=None, exchange_name='Sandbox', exchange=ex, symbol=symbol, strategy=strat)
+    w.position = p
+    w.positions = {symbol: p}
+    ov = h.ctx.cfg.overrides
+    ov['jesse.services.selectors.get_position'] = lambda i, a, k: w.positions.get(a[1])
+    ov['jesse.services.selectors.get_exchange'] = lambda i, a, k: ex
+    ov['jesse.helpers.now_to_timestamp'] = lambda i, a, k: Opaque('now')
+    return w
+
+
+def trades_store(h, trace=None):
+    """store stub: completed_trades / orders record calls in `trace` (call-trace ghost)"""
+    trace = trace if trace is not None else []
+
+    def rec(name):
+        return Builtin(name, lambda i, a, k, name=name: trace.append((name, tuple(a))))
+    ct = Obj(None, {'add_executed_order': rec('add_executed_order'), 'open_trade': rec('open_trade'),
+                    'close_trade': rec('close_trade')}, name='store.completed_trades')
+    app = Obj(None, {'time': Opaque('time'), 'total_liquidations': 0}, name='store.app')
+    store = Obj(None, {'completed_trades': ct, 'app': app}, name='store')
+    h.ctx.cfg.globals['jesse.store.store'] = lambda i: store
+    return store, trace
